@@ -86,7 +86,8 @@ func (b *exampleBuilder) buildExampleForObjectNode(node *ischema.ObjectNode) ([]
 		buf.Write(ex)
 	}
 	buf.WriteByte('}')
-	return buf.Bytes(), nil
+	// buf goes back to the pool on return: hand out a copy, not its memory.
+	return append([]byte(nil), buf.Bytes()...), nil
 }
 
 func (b *exampleBuilder) buildObjectKey(k ischema.ObjectNodeKey) ([]byte, error) {
@@ -156,7 +157,8 @@ func (b *exampleBuilder) buildExampleForArrayNode(node *ischema.ArrayNode) ([]by
 		buf.Write(ex)
 	}
 	buf.WriteByte(']')
-	return buf.Bytes(), nil
+	// buf goes back to the pool on return: hand out a copy, not its memory.
+	return append([]byte(nil), buf.Bytes()...), nil
 }
 
 func (b *exampleBuilder) buildExampleForMixedValueNode(node *ischema.MixedValueNode) ([]byte, error) {
